@@ -9,7 +9,7 @@ RULE = ('correspondence c15_text: Text::draw (pixel map on both recording target
         'strings with 0..4 line breaks as LF or CR LF, empty lines, trailing newline, lone CR (leading, mid-line, trailing), doubled CR, CR CR LF, unmapped characters x small and +-2^20 positions. '
         'search p_c15 (real built-in fonts incl. the zero-sized NULL_FONT of MonoTextStyleBuilder::new(), independent arithmetic): per line alignment of the measure_string box (starts at / ends at / centred within half a pixel), '
         'k-th line k*line_height lower, every glyph cell against font.image (C14 reference), draw returns measure_string next position, bounding box = hull of the '
-        'line boxes, baseline = Top moved by the documented offset, text with LF = parts drawn separately, CR LF = LF, left-aligned chaining s1 then s2 = s1+s2, Text::new / with_baseline / with_alignment and TextStyle::with_* / default == the builder forms (and render identically).')
+        'line boxes, baseline = Top moved by the documented offset, text with LF = parts drawn separately, CR LF = LF, left-aligned chaining s1 then s2 = s1+s2, Text::new / with_baseline / with_alignment and TextStyle::with_* / default == the builder forms (and render identically), LineHeight::default() = Percent(100), TextStyleBuilder::default()/new()/from(&style).')
 EXHAUSTIVE = {'quick': False, 'thorough': False}
 ASSUMPTIONS = g.ASSUMPTIONS + ['vertical range: Text::lines adds line_height per line in i32 and LineHeight::Percent computes ch*percent in u32 (text.rs:143, text/mod.rs:268); the model is '
                                'unbounded, so the layout theorems transfer to the code while |y| + lines*line_height <= 2^28 and ch*percent < 2^32 (generators: <= 5 lines, line height <= 52, percent <= 400)',
